@@ -35,7 +35,10 @@ RULE = (
     "of the batch (before State.save_many runs; deterministic, no threads), two shaped arms "
     "(several same-directory target files behind a dangling symlink with siblings deleted and "
     "uncached edits on several others; a target object verified by an earlier checkout of the same "
-    "store and dropped afterwards while a second copy of its bytes sits at another path), "
+    "store and dropped afterwards while a second copy of its bytes sits at another path), optionally "
+    "a partial cache of the OLD workspace tree (the final prior workspace is staged into the cache, "
+    "then a drawn subset of its file objects is removed while its .dir object stays; more single-file "
+    "targets over directory workspaces in that arm), "
     "optionally target objects dropped from the cache, configured link types, relink on/off, state "
     "on/off and prompt None / always-decline (plus a small accepting arm that only checks that no "
     "PromptError is raised), force=False. Oracle: byte snapshots of the workspace before/after; every "
